@@ -35,6 +35,7 @@ type c15Call struct {
 	OType  string   `json:"otype,omitempty"`
 	ORcpt  string   `json:"orcpt,omitempty"`
 	RRVS   bool     `json:"rrvs,omitempty"`
+	Body   string   `json:"body,omitempty"` // MailOptions.Body (the client documents that it picks the BODY value itself; a client that honours the field must do so on one line, under what was negotiated)
 }
 
 type c15Case struct {
@@ -148,7 +149,7 @@ func c15Run(c c15Case) Verdict {
 			case "mail":
 				var o *smtp.MailOptions
 				if call.Opts {
-					o = &smtp.MailOptions{Size: call.Size, RequireTLS: call.RTLS, UTF8: call.UTF8, Return: smtp.DSNReturn(call.Ret), EnvelopeID: call.EnvID, Auth: call.Auth}
+					o = &smtp.MailOptions{Size: call.Size, RequireTLS: call.RTLS, UTF8: call.UTF8, Return: smtp.DSNReturn(call.Ret), EnvelopeID: call.EnvID, Auth: call.Auth, Body: smtp.BodyType(call.Body)}
 				}
 				err = cl.Mail(call.Addr, o)
 			case "rcpt":
@@ -294,6 +295,9 @@ func c15Run(c c15Case) Verdict {
 					absent = true
 					return failf("unnegotiated-parameter", "%s sent %q although the most recent EHLO reply offers only %v", what, tok, res.caps)
 				}
+				if key == "BODY" && strings.EqualFold(tok, "BODY=BINARYMIME") && !offered["BINARYMIME"] {
+					return failf("unnegotiated-parameter", "%s sent %q although the most recent EHLO reply offers no BINARYMIME (%v)", what, tok, res.caps)
+				}
 			}
 		}
 		if call.Op == "mail" && call.Opts {
@@ -400,6 +404,9 @@ func c15GenCall(t *rapid.T, op string) c15Call {
 			if rapid.Bool().Draw(t, "o_ret") {
 				c.Ret = c15Embed(t, rapid.SampledFrom([]string{"FULL", "HDRS"}).Draw(t, "ret"), "ret")
 			}
+			if rapid.IntRange(0, 2).Draw(t, "o_body") == 0 {
+				c.Body = c15Embed(t, rapid.SampledFrom([]string{"7BIT", "8BITMIME", "BINARYMIME"}).Draw(t, "body"), "body")
+			}
 			if rapid.Bool().Draw(t, "o_envid") {
 				c.EnvID = c15Embed(t, "envelope-1", "envid")
 			}
@@ -487,6 +494,7 @@ func TestC15(t *testing.T) {
 			{Op: "mail", Addr: "s@x", Opts: true, EnvID: emb("envelope-1")},
 			{Op: "mail", Addr: "s@x", Opts: true, Auth: &auth},
 			{Op: "mail", Addr: "s@x", Opts: true, Ret: emb("FULL")},
+			{Op: "mail", Addr: "s@x", Opts: true, Body: emb("8BITMIME")},
 			{Op: "rcpt", Addr: "r@x", Opts: true, OType: "RFC822", ORcpt: emb("orig@example.org")},
 			{Op: "rcpt", Addr: "r@x", Opts: true, OType: "UTF-8", ORcpt: emb("orig@example.org")},
 			{Op: "rcpt", Addr: "r@x", Opts: true, OType: emb("RFC822"), ORcpt: "orig@example.org"},
